@@ -1,8 +1,10 @@
 //! bufmc: engines B (cursor model checker: C09-C12) and D (tables: C14, C15).
 use oracle::report::Report;
 
+mod cursor;
 mod reps;
 mod table;
+mod typed;
 
 #[global_allocator]
 static ALLOC: oracle::Oracle = oracle::Oracle;
@@ -36,6 +38,21 @@ fn main() {
         "c15" => {
             let mut r = Report::new("table", "C15", &config);
             table::run_c15(&tier, odd, &mut r);
+            r
+        }
+        "c09" | "c12r" => {
+            let shard: usize = arg("--shard", "0").parse().unwrap();
+            let nshards: usize = arg("--nshards", "1").parse().unwrap();
+            let p = if engine == "c09" { "C09" } else { "C12" };
+            let mut r = Report::new("cursor", p, &config);
+            cursor::run(&tier, odd, shard, nshards, p, &mut r);
+            r
+        }
+        "c10" => {
+            let shard: usize = arg("--shard", "0").parse().unwrap();
+            let nshards: usize = arg("--nshards", "1").parse().unwrap();
+            let mut r = Report::new("typed", "C10", &config);
+            typed::run(&tier, odd, shard, nshards, &mut r);
             r
         }
         _ => {
